@@ -317,3 +317,32 @@ func Harness_C14_hub_topic_delete() {
 	}
 	verifReach("end")
 }
+
+// A terminated topic tells every attached session to drop it. If a session's queue of detach notices is full
+// (its goroutine is busy elsewhere) the topic waits - the notice is never dropped, otherwise the session would
+// list a dead topic for ever and a later {leave} on it would go unanswered.
+func Harness_C14_detach_notice_never_dropped() {
+	fx := verifNewTopic(verifKindGrp, 2)
+	t := fx.topic
+	verifNotified = nil
+	u := fx.uids[1]
+	s := verifNewSession("sid-a", u, auth.LevelAuth, 32)
+	s.inflightReqs = newBoundedWaitGroup(8)
+	fx.attach(s, u, false)
+	full := verifNondetBool("detachQueueFull")
+	pending := 0
+	if full {
+		for len(s.detach) < cap(s.detach) {
+			s.detach <- "grpSomethingElse"
+		}
+		pending = cap(s.detach)
+	}
+	t.markDeleted()
+	blocked := verifRunUntilBlocked(func() { t.handleTopicTermination(&shutDown{reason: StopDeleted}) })
+	if full {
+		verifAssert(blocked && len(s.detach) == pending, "topic-waits-for-a-full-detach-queue")
+	} else {
+		verifAssert(!blocked && len(s.detach) == 1, "session-told-to-drop-the-topic")
+	}
+	verifReach("end")
+}
